@@ -505,6 +505,9 @@ class Interp:
         self.ghost['loop_index'] = None
         if it is not None:
             self.assume(i == seqlen)
+        else:
+            if self.decide(self.eval(s.test), 'while-exit'):
+                raise PathEnd()
         if spec.get('each'):
             # forall-introduction: sound because iteration k writes the sequence only at index k
             # (checked syntactically) so the element established by iteration k is still there
@@ -513,9 +516,6 @@ class Interp:
             for ea in spec['each']:
                 body = self.spec_bool(ea, inv_env(q))
                 self.assume(z3.ForAll([q], z3.Implies(z3.And(q >= 0, q < seqlen), body)))
-        else:
-            if self.decide(self.eval(s.test), 'while-exit'):
-                raise PathEnd()
         self.exec_block(s.orelse)
 
     def _check_each_frame(self, s, spec):
